@@ -241,3 +241,17 @@ Proof.
       apply (Permutation_in _ H1) in Hs. unfold selected in Hs. apply filter_In in Hs. apply Hs.
     + rewrite nth_overflow in Hj by assumption. contradiction.
 Qed.
+
+(* ------------------------------------------------------------------ the tables are the model *)
+(* the model's rows are the tables of Model.v (which the translator re-reads from the source on
+   every run), interpreted *)
+Theorem tables_are_the_model :
+  (forall a, ublock [a] = map (interp_single a 0%Q) single_u_table)
+  /\ (forall a wa, wblock true [a] [wa] = map (interp_single a wa) single_w_table)
+  /\ (forall a wa, whist_tgt true [a] [wa] = interp_single a wa single_whist)
+  /\ (forall a b t, ublock (a :: b :: t) = map (interp_many (a :: b :: t) []) many_u_table)
+  /\ (forall v w, wblock_many v w = map (interp_many v w) many_w_table)
+  /\ (forall a b t w, whist_tgt true (a :: b :: t) w = interp_many (a :: b :: t) w many_whist)
+  /\ ublock_empty = map (fun _ => TExact sentinel) single_u_table
+  /\ center_factor = 0x1p-1%float.
+Proof. repeat split; reflexivity. Qed.
